@@ -162,6 +162,11 @@ pub fn run_c13(tier: Tier) -> i32 {
     for n in 1..=8usize {
         plans.push(Plan { scn: c13_scenario(Op::ProbeTuple(probe_ids(n)), n == 2 || n == 8), bound: if n == 2 || n == 8 { tier.pick(2, 3) } else { tier.pick(1, 2) } });
     }
+    // the same lists over a transport that takes only a few bytes per write call
+    for (n, chunk) in [(1usize, 1usize), (2, 1), (3, 7), (5, 16), (8, 40)] {
+        plans.push(Plan { scn: crate::props::loopprops::with_short_writes(c13_scenario(Op::ProbeVec(probe_ids(n.min(5))), false), chunk), bound: tier.pick(1, 2) });
+        plans.push(Plan { scn: crate::props::loopprops::with_short_writes(c13_scenario(Op::ProbeTuple(probe_ids(n)), false), chunk), bound: tier.pick(1, 2) });
+    }
     let (mut cov, mut viol) = run_plans(
         &ctx,
         plans,
@@ -170,6 +175,24 @@ pub fn run_c13(tier: Tier) -> i32 {
         "typed Vec lists of length 0..=5 and tuples of arity 1..=8 of distinguishable probe commands through the real Client::command_list, all schedules within the deviation bound (with a second caller; for three shapes also a notification and a split); raw lists of 1..=6 commands built in every mix of new/command/add/extend; non-trivial = typed lists whose framing and pairing were checked against the server transcript",
         &["typed_lists_checked"],
     );
+    // a typed Vec list answered with a different number of frames must not come back as a
+    // successful result of another length ("a vector of the same length")
+    {
+        use mpd_client::commands::CommandList as _;
+        let frame = crate::props::c12::make_frames(&[crate::mpdref::wire::AFrame::new(&[("echo", "probe 1")])], false).remove(0);
+        for n in 0..=5usize {
+            for k in 0..=n + 2 {
+                let list: Vec<Probe> = (0..n).map(|i| Probe(i as u32)).collect();
+                let frames: Vec<_> = (0..k).map(|_| frame.clone()).collect();
+                cov.evaluations += 1;
+                if let Ok(Ok(v)) = catch(|| list.responses(frames)) {
+                    if v.len() != n {
+                        viol.push(Violation::new("C13/vec-result-length", format!("a Vec list of {n} commands answered with {k} frames yields Ok with {} results", v.len()), json!({"kind": "vec-length", "n": n, "k": k})));
+                    }
+                }
+            }
+        }
+    }
     let (raw_cases, raw_lines) = c13_raw(&mut viol);
     cov.evaluations += raw_cases;
     cov.transitions += raw_lines;
@@ -556,6 +579,10 @@ fn all_scenarios(tier: Tier) -> Vec<Scenario> {
     for n in 1..=8usize {
         v.push(c13_scenario(Op::ProbeTuple(probe_ids(n)), n == 2 || n == 8));
     }
+    for (n, chunk) in [(1usize, 1usize), (2, 1), (3, 7), (5, 16), (8, 40)] {
+        v.push(crate::props::loopprops::with_short_writes(c13_scenario(Op::ProbeVec(probe_ids(n.min(5))), false), chunk));
+        v.push(crate::props::loopprops::with_short_writes(c13_scenario(Op::ProbeTuple(probe_ids(n)), false), chunk));
+    }
     v.extend(c17_grid(tier));
     v.extend(c17_explore_scenarios());
     let pw = "pw x\"y";
@@ -577,6 +604,25 @@ fn all_scenarios(tier: Tier) -> Vec<Scenario> {
 pub fn replay(id: &str, case: &Value) -> i32 {
     if case["kind"].as_str() == Some("greeting") {
         return crate::props::proto::replay(id, case);
+    }
+    if case["kind"].as_str() == Some("vec-length") {
+        use mpd_client::commands::CommandList as _;
+        let n = case["n"].as_u64().unwrap_or(0) as usize;
+        let k = case["k"].as_u64().unwrap_or(0) as usize;
+        let frame = crate::props::c12::make_frames(&[crate::mpdref::wire::AFrame::new(&[("echo", "probe 1")])], false).remove(0);
+        let list: Vec<Probe> = (0..n).map(|i| Probe(i as u32)).collect();
+        let r = catch(|| list.responses((0..k).map(|_| frame.clone()).collect()));
+        println!("replay C13: Vec list of {n} commands answered with {k} frames -> {:?}", r.as_ref().map(|r| r.as_ref().map(|v| v.len()).map_err(|e| e.to_string())));
+        return match r {
+            Ok(Ok(v)) if v.len() != n => {
+                println!("replay: VIOLATION");
+                1
+            }
+            _ => {
+                println!("replay: property holds on this case");
+                0
+            }
+        };
     }
     if case["kind"].as_str() == Some("raw") {
         let mut v = Violations::default();
